@@ -161,6 +161,10 @@ arr_real resample(const arr_real& x, int p_, int q_, const arr_real& h) {
         return x;
     }
 
+    if (x.empty()) {
+        return x;
+    }
+
     FIRResampler rsmp(p, q, h);
     const int nx = IResampler::next_size(x.size(), p, q);
     const int ny = nx / q * p;   //`nx` is a multiple of `q`; dividing first cannot overflow
